@@ -77,4 +77,261 @@ theorem checkRedirect_strictHttps {pol : Policy} {first nxt : Req} {n : Nat}
   · rename_i hn
     simpa [hp] using hn
 
+/-! ### net/url model: cuts, prefixes and lengths -/
+
+theorem cut_fst_prefix (c : Nat) : ∀ s : Bytes, (cut c s).1 <+: s
+  | [] => by simp [cut]
+  | x :: xs => by
+    unfold cut
+    split
+    · simp
+    · simp only; exact (List.cons_prefix_cons).mpr ⟨rfl, cut_fst_prefix c xs⟩
+
+theorem not_mem_cut_fst (c : Nat) : ∀ s : Bytes, c ∉ (cut c s).1
+  | [] => by simp [cut]
+  | x :: xs => by
+    unfold cut
+    split
+    · simp
+    · rename_i h; simp only [List.mem_cons, not_or]; exact ⟨fun e => h e.symm, not_mem_cut_fst c xs⟩
+
+theorem afterLast_length (c : Nat) : ∀ (s r : Bytes), afterLast c s = some r → r.length < s.length
+  | [], r, h => by simp [afterLast] at h
+  | x :: xs, r, h => by
+    unfold afterLast at h
+    split at h
+    · rename_i r' hr; cases h; have := afterLast_length c xs _ hr; simp; omega
+    · split at h
+      · cases h; simp
+      · cases h
+
+theorem unescapeAll_length_le : ∀ s : Bytes, (unescapeAll s).length ≤ s.length := by
+  intro s
+  induction s using unescapeAll.induct with
+  | case1 => simp [unescapeAll]
+  | case2 a b rest ih => simp [unescapeAll]; omega
+  | case3 c rest hne ih => rw [unescapeAll]; · simp; omega
+                           · exact hne
+
+theorem unescapeHost_length {s r : Bytes} (h : unescapeHost s = .ok r) : r.length ≤ s.length := by
+  unfold unescapeHost at h; split at h
+  · cases h; exact unescapeAll_length_le s
+  · cases h
+
+theorem unescapeZone_length {s r : Bytes} (h : unescapeZone s = .ok r) : r.length ≤ s.length := by
+  unfold unescapeZone at h; split at h
+  · cases h; exact unescapeAll_length_le s
+  · cases h
+
+theorem indexPct25_lt : ∀ (s : Bytes) (z : Nat), indexPct25 s = some z → z < s.length := by
+  intro s
+  induction s using indexPct25.induct with
+  | case1 => intro z h; simp [indexPct25] at h
+  | case2 rest => intro z h; simp [indexPct25] at h; subst h; simp
+  | case3 c rest hne ih =>
+    intro z h
+    rw [indexPct25] at h
+    · cases hr : indexPct25 rest with
+      | none => simp [hr] at h
+      | some z' => simp [hr] at h; have := ih z' hr; simp; omega
+    · exact hne
+
+theorem parseHost_length {s r : Bytes} (h : parseHost s = .ok r) : r.length ≤ s.length := by
+  unfold parseHost at h
+  split at h
+  · split at h
+    · cases h
+    · rename_i colonPort hal
+      have hcp := afterLast_length _ _ _ hal
+      split at h
+      · cases h
+      · simp only at h
+        split at h
+        · rename_i zone hz
+          split at h
+          · rename_i h1 h2 h3 e1 e2 e3
+            cases h
+            have hzl := indexPct25_lt _ _ hz
+            have l1 := unescapeHost_length e1
+            have l2 := unescapeZone_length e2
+            have l3 := unescapeHost_length e3
+            simp only [List.length_append, List.length_take, List.length_drop] at *
+            omega
+          · cases h
+        · exact unescapeHost_length h
+  · split at h
+    · split at h
+      · cases h
+      · exact unescapeHost_length h
+    · exact unescapeHost_length h
+
+/-- `parseAuthority` reports user-info exactly when the authority contains '@', and the host it returns is never
+    longer than what follows the last '@' -/
+theorem parseAuthority_spec {a host : Bytes} {hasUser : Bool} (h : parseAuthority a = .ok (hasUser, host)) :
+    (hasUser = false ∧ host.length ≤ a.length) ∨ (hasUser = true ∧ host.length < a.length) := by
+  unfold parseAuthority at h
+  split at h
+  · left
+    cases hp : parseHost a with
+    | ok r => simp [hp, Res.bind] at h; exact ⟨h.1, h.2 ▸ parseHost_length hp⟩
+    | err e => simp [hp, Res.bind] at h
+    | panic e => simp [hp, Res.bind] at h
+  · right
+    rename_i hostPart hal
+    cases hp : parseHost hostPart with
+    | ok r =>
+      simp only [hp, Res.bind] at h
+      split at h
+      · cases h
+      · split at h
+        · simp only [Res.ok.injEq, Prod.mk.injEq] at h
+          have := parseHost_length hp
+          have := afterLast_length _ _ _ hal
+          exact ⟨h.1.symm, by rw [← h.2]; omega⟩
+        · cases h
+    | err e => simp [hp, Res.bind] at h
+    | panic e => simp [hp, Res.bind] at h
+
+/-! ### url.Parse on "https://" + X -/
+
+theorem cut_https (c : Nat) (hc : c ∉ sHttpsSS) (X : Bytes) :
+    cut c (sHttpsSS ++ X) = (sHttpsSS ++ (cut c X).1, (cut c X).2) := by
+  simp only [sHttpsSS, List.mem_cons, List.mem_nil_iff, or_false, not_or] at hc
+  obtain ⟨h1, h2, h3, h4, h5, h6, h7, h8⟩ := hc
+  simp [sHttpsSS, cut, Ne.symm h1, Ne.symm h2, Ne.symm h4, Ne.symm h5, Ne.symm h6, Ne.symm h7]
+
+theorem getScheme_https (Y : Bytes) : getScheme (sHttpsSS ++ Y) = .ok (sHttps, cSlash :: cSlash :: Y) := by
+  simp [getScheme, getSchemeAux, sHttpsSS, sHttps, isUpper, isLower, isDigit, cColon, cSlash]
+
+theorem lower_https : lower sHttps = sHttps := by decide
+
+/-- after the query has been split off "//Y", what remains is "//Z" with Z a prefix of Y -/
+theorem splitQuery_slashes (Y : Bytes) : ∃ Z, (splitQuery (cSlash :: cSlash :: Y)).1 = cSlash :: cSlash :: Z ∧ Z <+: Y := by
+  unfold splitQuery
+  split
+  · rename_i hc
+    cases Y with
+    | nil => simp [hasSuffix, cSlash, cQ] at hc
+    | cons y ys =>
+      refine ⟨(y :: ys).take ys.length, ?_, List.take_prefix _ _⟩
+      simp [List.take]
+  · exact ⟨(cut cQ Y).1, by simp [cut, cSlash, cQ], cut_fst_prefix _ _⟩
+
+theorem setPath_fields {u v : URL} {p : Bytes} (h : setPath u p = .ok v) :
+    v.scheme = u.scheme ∧ v.opaq = u.opaq ∧ v.hasUser = u.hasUser ∧ v.host = u.host := by
+  unfold setPath at h
+  cases hp : pathUnescape p with
+  | ok r => simp [hp, Res.bind] at h; subst h; simp
+  | err e => simp [hp, Res.bind] at h
+  | panic e => simp [hp, Res.bind] at h
+
+/-- what `url.Parse("https://" + X)` returns: scheme https, and an authority that is a '/'-free prefix of X -/
+theorem parseURL_https (X : Bytes) (u : URL) (h : parseURL (sHttpsSS ++ X) = .ok u) :
+    u.scheme = sHttps ∧ u.opaq = [] ∧ ∃ A, A <+: X ∧ cSlash ∉ A ∧ parseAuthority A = .ok (u.hasUser, u.host) := by
+  unfold parseURL at h
+  rw [cut_https cHash (by decide)] at h
+  simp only at h
+  generalize hY : (cut cHash X).1 = Y at h
+  have hYX : Y <+: X := hY ▸ cut_fst_prefix _ _
+  cases hp : parseNoFrag (sHttpsSS ++ Y) with
+  | err e => simp [hp, Res.bind] at h
+  | panic e => simp [hp, Res.bind] at h
+  | ok v =>
+    have hv : v.scheme = sHttps ∧ v.opaq = [] ∧ ∃ A, A <+: X ∧ cSlash ∉ A ∧ parseAuthority A = .ok (v.hasUser, v.host) := by
+      unfold parseNoFrag at hp
+      split at hp
+      · cases hp
+      · split at hp
+        · rename_i h42; simp [sHttpsSS] at h42
+        · rw [getScheme_https] at hp
+          simp only [Res.bind] at hp
+          obtain ⟨Z, hZ, hZY⟩ := splitQuery_slashes Y
+          rw [hZ] at hp
+          unfold parseHier at hp
+          have e1 : hasPrefix [cSlash] (cSlash :: cSlash :: Z) = true := by simp [hasPrefix]
+          have e2 : hasPrefix [cSlash, cSlash] (cSlash :: cSlash :: Z) = true := by simp [hasPrefix]
+          have e3 : (sHttps ≠ []) := by decide
+          simp only [e1, e2, e3, Bool.not_true, Bool.false_and, Bool.false_eq_true, if_false, ne_eq, not_false_eq_true,
+            decide_true, Bool.true_or, Bool.and_self, if_true, List.drop_succ_cons, List.drop_zero] at hp
+          cases ha : parseAuthority (cut cSlash Z).1 with
+          | err e => simp [ha, Res.bind] at hp
+          | panic e => simp [ha, Res.bind] at hp
+          | ok r =>
+            simp only [ha, Res.bind] at hp
+            have := setPath_fields hp
+            simp only [lower_https] at this
+            refine ⟨this.1, this.2.1, (cut cSlash Z).1, ?_, not_mem_cut_fst _ _, ?_⟩
+            · exact (cut_fst_prefix _ _).trans (hZY.trans hYX)
+            · rw [ha, this.2.2.1, this.2.2.2]
+    simp only [hp, Res.bind] at h
+    split at h
+    · cases h; exact hv
+    · cases h; exact hv
+    · cases hf : pathUnescape ‹Bytes› with
+      | ok fr => simp [hf, Res.bind] at h; subst h; exact hv
+      | err e => simp [hf, Res.bind] at h
+      | panic e => simp [hf, Res.bind] at h
+
+/-! ### DIDToURL: origin of the returned URL -/
+
+theorem percentDecode_slash (dec : List Nat) (t : Bytes) : percentDecode dec (cSlash :: t) = cSlash :: percentDecode dec t := by
+  simp [percentDecode, percentDecodeAux, decodeAt, cSlash]
+
+/-- a '/'-free prefix of `H ++ P`, where `P` is empty or starts with '/', is a prefix of `H` -/
+theorem prefix_of_slashfree {A H P : Bytes} (hA : A <+: H ++ P) (hs : cSlash ∉ A) (hP : P = [] ∨ ∃ t, P = cSlash :: t) :
+    A.length ≤ H.length := by
+  rcases hP with rfl | ⟨t, rfl⟩
+  · simpa using hA.length_le
+  · by_cases hl : A.length ≤ H.length
+    · exact hl
+    · exfalso
+      have h1 : H ++ [cSlash] <+: H ++ cSlash :: t := by
+        have : H ++ cSlash :: t = (H ++ [cSlash]) ++ t := by simp
+        rw [this]; exact List.prefix_append _ _
+      have h2 : H ++ [cSlash] <+: A := List.prefix_of_prefix_length_le h1 hA (by simp; omega)
+      exact hs (h2.subset (by simp))
+
+/-- **origin of the URL `DIDToURL` returns.** For EVERY `did.DID` value (any bytes): if `DIDToURL` succeeds, the URL is
+    https, its host is exactly the percent-decoded first component of the identifier, it has no user-info, and the host
+    name is not an IP address. -/
+theorem didToURL_origin (dec : List Nat) (d : DID) (u : URL) (h : didToURL dec d = .ok u) :
+    d.method = sWeb ∧ u.scheme = sHttps ∧ u.hasUser = false ∧ u.opaq = [] ∧
+    pathUnescape (cut cColon d.id).1 = .ok u.host ∧ isIP (hostname u.host) = false := by
+  unfold didToURL at h
+  split at h
+  · cases h
+  · rename_i hm
+    split at h
+    · cases h
+    · cases hpu : pathUnescape (cut cColon d.id).1 with
+      | err e => simp [hpu] at h
+      | panic e => simp [hpu] at h
+      | ok H =>
+        simp only [hpu, List.append_assoc] at h
+        generalize hP : percentDecode dec (didPath d.id) = P at h
+        have hPs : P = [] ∨ ∃ t, P = cSlash :: t := by
+          rw [← hP]; unfold didPath
+          cases (cut cColon d.id).2 with
+          | none => left; simp [percentDecode, percentDecodeAux]
+          | some t => right; exact ⟨_, percentDecode_slash dec _⟩
+        cases hpp : parseURL (sHttpsSS ++ (H ++ P)) with
+        | err e => simp [hpp] at h
+        | panic e => simp [hpp] at h
+        | ok v =>
+          simp only [hpp] at h
+          split at h
+          · cases h
+          · rename_i hhost
+            split at h
+            · cases h
+            · rename_i hip
+              cases h
+              have hhost' : u.host = H := by simpa using hhost
+              obtain ⟨hs, ho, A, hA, hsl, hauth⟩ := parseURL_https (H ++ P) u hpp
+              have hAl := prefix_of_slashfree hA hsl hPs
+              refine ⟨by simpa using hm, hs, ?_, ho, by rw [hhost'], by simpa using hip⟩
+              rcases parseAuthority_spec hauth with ⟨hu, _⟩ | ⟨_, hlt⟩
+              · exact hu
+              · exfalso; rw [hhost'] at hlt; omega
+
 end Nuts.C18
